@@ -1,10 +1,10 @@
-\* generated by spec/getter/gen_cfgs.sh -- MC_quick_samples2
+\* generated by spec/getter/gen_cfgs.sh -- MC_quick_cascade
 SPECIFICATION Spec
 CONSTANTS
-  ReqTypes <- TypesSamples
-  NItems = 2
+  ReqTypes <- TypesAll
+  NItems = 1
   MaxAnswers = 1
-  Chains <- ChainsDirect
+  Chains <- ChainsCascade
   NPeers = 2
   BlockStores <- StoresAll
   ClearOnFail = TRUE
